@@ -98,17 +98,18 @@ class Part:
         return ("\r\n".join(lines)).encode("utf-8")
 
 
-def encode_form(parts: List[Part], boundary: bytes, preamble: bytes = b"", epilogue: bytes = b"", lb: bytes = b"\r\n") -> List[Any]:
+def encode_form(parts: List[Part], boundary: bytes, preamble: bytes = b"", epilogue: bytes = b"", lb: bytes = b"\r\n", pad: bytes = b"") -> List[Any]:
     """Items (ints / SInt) of the encoded body. lb: the line break used for the framing (RFC: CRLF; the decoder also
     tolerates bare LF / bare CR)."""
     out: List[Any] = list(preamble)
     if preamble:
         out += list(lb)
     for p in parts:
-        out += list(b"--" + boundary + lb + p.header_bytes().replace(b"\r\n", lb) + lb + lb)
+        # pad: RFC 2046 transport padding (blanks between the boundary and its line break)
+        out += list(b"--" + boundary + pad + lb + p.header_bytes().replace(b"\r\n", lb) + lb + lb)
         out += list(p.content)
         out += list(lb)
-    out += list(b"--" + boundary + b"--" + lb + epilogue)
+    out += list(b"--" + boundary + b"--" + pad + lb + epilogue)
     return out
 
 
